@@ -4,6 +4,7 @@ import (
 	"fmt"
 	"os"
 	"path/filepath"
+	"reflect"
 	"strconv"
 	"strings"
 )
@@ -177,7 +178,15 @@ func cdecs(l []*[]Field) string {
 	return clist("(option (list field))", e)
 }
 
-func (s StepObs) coq() string {
+func osnap(prev *Snap, cur Snap, live bool) string {
+	if !live || reflect.DeepEqual(*prev, cur) {
+		return "None"
+	}
+	*prev = cur
+	return "(Some " + csnap(cur) + ")"
+}
+
+func (s StepObs) coq(prevC, prevS *Snap) string {
 	var ords []string
 	for _, o := range s.Orders {
 		var e []string
@@ -192,7 +201,7 @@ func (s StepObs) coq() string {
 	}
 	return fmt.Sprintf("mkO (mkEv %s (%s) %s) %s\n    %s\n    %s\n    %s %s %s\n    %s\n    %s",
 		side, s.In.R(), clist("(list N)", ords), cb(s.Valid), cframes(s.ToC), cframes(s.ToS),
-		cdecs(s.DecC), cdecs(s.DecS), s.Status, csnap(s.SnapC), csnap(s.SnapS))
+		cdecs(s.DecC), cdecs(s.DecS), s.Status, osnap(prevC, s.SnapC, s.Status != "Diverge"), osnap(prevS, s.SnapS, s.Status != "Diverge"))
 }
 
 func (m *mirror) coqDQ() string {
@@ -214,8 +223,10 @@ func (m *mirror) coqEQ() string {
 // Coq renders the case as an hcase.
 func (c *Case) Coq() string {
 	var st []string
+	prevC := Snap{Max: 16384, Init: 65535, Conn: 65535}
+	prevS := prevC
 	for _, s := range c.Steps {
-		st = append(st, s.coq())
+		st = append(st, s.coq(&prevC, &prevS))
 	}
 	steps := "(@nil ostep)"
 	if len(st) > 0 {
